@@ -188,11 +188,11 @@ fn c18_o1_client_mode_silent() {
 }
 
 //@ ob: C18.O2
+//@ tier: thorough
+//@ cap: 2400
+//@ rss: 8
+//@ time: 649
 //@ mem: 28
-//@ tier: quick
-//@ cap: 800
-//@ rss: 8.0
-//@ time: 534
 //@ standins: tracing lru vcoll
 //@ desc: a request adds its sender to a routing table only if the node is in server mode, the requester is not read-only and the request is find_node: into the main table only when the node has no bootstrap list (first node of a network), into the signed-peers table only when the requester's version supports signed peers ('RS' >= 00 06); read-only requesters are never inserted
 //@ bounds: server_mode, read_only, bootstrap-empty, request kind (5), version (None or 4 symbolic bytes) all symbolic; requester id concrete and != own id; unwind 26
